@@ -81,6 +81,8 @@ def h_dispatch(cls):
                 return Obj(I2.fresh('value', ObjS))
             return Func(method)
         sp.models['getattr'] = Func(m_getattr)
+        # list(<generator>) consumes it: the generator's body runs here and may raise anything an _eval_ method may raise
+        sp.models['list'] = Func(lambda I_, a, k, n: (raise_any(I_, 'list(generator)'), Obj(I_.fresh('values', ObjS)))[1])
         fi = find_function(EP + cls + '.evaluate')
         expect_raises(ctx, I, lambda: I.call_function(fi, [node], {}, self_obj=me), ['ExpressionError'], cls + '.evaluate')
     return h
